@@ -21,7 +21,7 @@ ENTRY = {
         "RANGE offsets: keys and offsets below 2^53 (the code compares `as f64`; the model compares integers exactly): named gap",
         "SUM/AVG over integers: totals below 2^53 (f64 prefix sums in the code, exact integers in the model); i64 overflow is engine-defined and skipped",
         "NaN / -0.0 order keys and arguments are not generated (engine-defined); LAG/LEAD defaults are literals of the argument's type",
-        "DENSE_RANK and the numeric-offset RANGE scans are only partially proved (see the *_partial theorems); they are compared with the implementation and the declarative semantics on every generated case",
+        "the numeric-offset RANGE scans are only partially proved (C26_frame_range_partial); they are compared with the implementation and the declarative semantics on every generated case",
     ],
     "min_tags": {"fn:row_number": 1, "fn:rank": 1, "fn:dense_rank": 1, "fn:percent_rank": 1, "fn:cume_dist": 1, "fn:ntile": 1, "fn:lag": 1, "fn:lead": 1,
                  "fn:first_value": 1, "fn:last_value": 1, "fn:nth_value": 1, "fn:count_star": 1, "fn:count": 1, "fn:sum": 1, "fn:avg": 1, "fn:min": 1, "fn:max": 1,
@@ -33,7 +33,7 @@ ENTRY = {
                 "(adjacent-equal runs) are exactly the tie classes, so RANK-1 = rows strictly before, CUME_DIST*n = rows before-or-tied, PERCENT_RANK's numerator (C26_rank, C26_cume_dist, "
                 "C26_percent_rank, C26_peerEq_is_tie), RANGE UNBOUNDED/CURRENT ROW frames = whole peer groups (C26_frame_range_partial); prefix-sum COUNT/SUM = aggregate over the frame slice incl. "
                 "empty frames and NULL arguments (C26_frame_agg); LAG/LEAD and FIRST/LAST/NTH index arithmetic (C26_lag_lead, C26_first_last_nth); ROW_NUMBER = 1..m (C26_row_number); scatter "
-                "back to input order with input columns unchanged (C26_scatter). NTILE closed formula = declarative buckets (C26_ntile). Partial: DENSE_RANK (tie-class changes, not the count of distinct classes) and numeric RANGE offsets are "
+                "back to input order with input columns unchanged (C26_scatter). NTILE closed formula = declarative buckets (C26_ntile); DENSE_RANK = one plus the distinct tie classes strictly before (C26_dense_rank). Partial: numeric RANGE offsets are "
                 "modelled and sampled, not proved. Kernel-checked negation witnesses for the three defects found and repaired (71f6bb2, 2f0b366, 99283f8). Tied to the code by the translator "
                 "(ROWS arm) and by correspondence + declarative SQL oracle on generated window statements, incl. a stream that must be refused by name.",
         "design_ref": "DESIGN.md §6 C26",
